@@ -12,6 +12,7 @@ package c15
 import (
 	"bytes"
 	"fmt"
+	"github.com/cosmos/cosmos-sdk/types/query"
 	"math"
 	"math/big"
 	"sort"
@@ -642,6 +643,32 @@ func (d *Driver) compare(e *mc.Env, s *mc.State, m *model, od *opData, class str
 		var bals []map[string]uint64
 		for a := range actors {
 			bals = append(bals, d.queried(e, s, cl.id, a))
+			// the same listing read page by page (one entry a page): every token once, same amounts
+			paged := map[string]uint64{}
+			var key []byte
+			for pages := 0; pages < 20; pages++ {
+				r, err := e.MT.Balances(s.Ctx, &mttypes.QueryBalancesRequest{Owner: addr(a), DenomId: cl.id, Pagination: &query.PageRequest{Key: key, Limit: 1}})
+				if err != nil {
+					fs = append(fs, mc.F("C15/query-failed/balances-page", "class c%d holder %s: %v", ci+1, actors[a], err))
+					break
+				}
+				if len(r.Balance) > 1 {
+					fs = append(fs, mc.F("C15/balances-pages-differ/page-longer-than-asked", "class c%d holder %s: a page of limit 1 lists %d entries", ci+1, actors[a], len(r.Balance)))
+				}
+				for _, b := range r.Balance {
+					if _, dup := paged[b.MtId]; dup {
+						fs = append(fs, mc.F("C15/balances-pages-differ/token-on-two-pages", "class c%d holder %s: token %s appears on two pages", ci+1, actors[a], b.MtId))
+					}
+					paged[b.MtId] = b.Amount
+				}
+				if r.Pagination == nil || len(r.Pagination.NextKey) == 0 {
+					break
+				}
+				key = r.Pagination.NextKey
+			}
+			if fmt.Sprint(paged) != fmt.Sprint(bals[a]) {
+				fs = append(fs, mc.F("C15/balances-pages-differ/from-whole-listing", "class c%d holder %s: pages of one entry give %v, the whole listing %v", ci+1, actors[a], paged, bals[a]))
+			}
 		}
 		for ti, t := range cl.tokens {
 			target := od != nil && od.kind != "issue" && od.kind != "handover" && od.kind != "mintnew" && od.ci == ci && od.ti == ti
@@ -745,6 +772,32 @@ func (d *Driver) Check(e *mc.Env, s *mc.State) []mc.Finding {
 		var bals []map[string]uint64
 		for a := range actors {
 			bals = append(bals, d.queried(e, s, cl.id, a))
+			// the same listing read page by page (one entry a page): every token once, same amounts
+			paged := map[string]uint64{}
+			var key []byte
+			for pages := 0; pages < 20; pages++ {
+				r, err := e.MT.Balances(s.Ctx, &mttypes.QueryBalancesRequest{Owner: addr(a), DenomId: cl.id, Pagination: &query.PageRequest{Key: key, Limit: 1}})
+				if err != nil {
+					fs = append(fs, mc.F("C15/query-failed/balances-page", "class c%d holder %s: %v", ci+1, actors[a], err))
+					break
+				}
+				if len(r.Balance) > 1 {
+					fs = append(fs, mc.F("C15/balances-pages-differ/page-longer-than-asked", "class c%d holder %s: a page of limit 1 lists %d entries", ci+1, actors[a], len(r.Balance)))
+				}
+				for _, b := range r.Balance {
+					if _, dup := paged[b.MtId]; dup {
+						fs = append(fs, mc.F("C15/balances-pages-differ/token-on-two-pages", "class c%d holder %s: token %s appears on two pages", ci+1, actors[a], b.MtId))
+					}
+					paged[b.MtId] = b.Amount
+				}
+				if r.Pagination == nil || len(r.Pagination.NextKey) == 0 {
+					break
+				}
+				key = r.Pagination.NextKey
+			}
+			if fmt.Sprint(paged) != fmt.Sprint(bals[a]) {
+				fs = append(fs, mc.F("C15/balances-pages-differ/from-whole-listing", "class c%d holder %s: pages of one entry give %v, the whole listing %v", ci+1, actors[a], paged, bals[a]))
+			}
 		}
 		for ti, t := range cl.tokens {
 			sr, err := e.MT.MTSupply(s.Ctx, &mttypes.QueryMTSupplyRequest{DenomId: cl.id, MtId: t.id})
